@@ -63,6 +63,12 @@ HARNESS = r'''
     }
     #[kani::proof]
     #[kani::unwind(34)]
+    fn canary_skip_execution_reachable() {
+        let mut m = ExecutionStateMachine(any_state());
+        assert!(!m.check_if_executed_block(kani::any()));     // must FAIL: the executed block is recognised
+    }
+    #[kani::proof]
+    #[kani::unwind(34)]
     fn set_executed_block_contract() {
         let s0 = any_state();
         let mut m = ExecutionStateMachine(s0.clone());
@@ -110,6 +116,7 @@ UNIT = dict(
     harness=HARNESS,
     harnesses=[
         dict(name="check_if_prepared_proposal_contract", obligation="ExecutionStateMachine::check_if_prepared_proposal::ensures#true-iff-cached-fingerprint-equals-request-in-every-field+transition"),
+        dict(name="canary_skip_execution_reachable", expect="fail"),
         dict(name="set_executed_block_contract", obligation="ExecutionStateMachine::set_executed_block::ensures#total-transition-relation+errors-leave-unchanged"),
         dict(name="check_if_executed_block_contract", obligation="ExecutionStateMachine::check_if_executed_block::ensures#true-iff-same-hash+mismatch-absorbing"),
     ],
